@@ -48,14 +48,20 @@ void *memset(void *s, int c, size_t n) { unsigned char *p = s; for (size_t i = 0
 #define MAXW 6
 #define MAXH 5
 #endif
-void h_init(void) {
-    V_NONDET(unsigned, W); V_NONDET(unsigned, H); V_NONDET(unsigned, sc); V_NONDET(unsigned, sr);
-    V_ASSUME(W >= 2 && W <= MAXW && H >= 1 && H <= MAXH && sc >= 1 && sc <= MAXW && sr >= 1 && sr <= MAXH);
+#ifndef WLO
+#define WLO 1
+#define WHI MAXW
+#endif
+#ifndef MAXSC
+#define MAXSC MAXW
+#define MAXSR MAXH
+#endif
+static void check_init(unsigned W, unsigned H, unsigned sc, unsigned sr) {
     EncDecSegments s;
-    unsigned maxrows = MAXH, maxbands = MAXH + MAXW;
-    uint16_t xs[MAXH * (MAXH + MAXW)], ys[MAXH * (MAXH + MAXW)], vc[MAXH * (MAXH + MAXW)];
-    uint8_t dm[MAXH * (MAXH + MAXW)];
-    EncDecSegSegmentRow rows[MAXH];
+    unsigned maxrows = MAXSR, maxbands = MAXSR + MAXSC;   /* as enc_dec_segments_ctor sizes them: rows, rows + cols */
+    uint16_t xs[MAXSR * (MAXSR + MAXSC)], ys[MAXSR * (MAXSR + MAXSC)], vc[MAXSR * (MAXSR + MAXSC)];
+    uint8_t dm[MAXSR * (MAXSR + MAXSC)];
+    EncDecSegSegmentRow rows[MAXSR];
     s.segment_max_row_count = maxrows; s.segment_max_band_count = maxbands; s.segment_max_total_count = maxrows * maxbands;
     s.x_start_array = xs; s.y_start_array = ys; s.valid_sb_count_array = vc; s.dep_map.dependency_map = dm; s.row_array = rows;
     enc_dec_segments_init(&s, sc, sr, W, H);
@@ -63,7 +69,7 @@ void h_init(void) {
     V_ASSERT(R >= 1 && R <= H && R <= sr && T == R * B && T <= s.segment_max_total_count, "grid clamped to the picture and inside the allocated tables");
     /* counts add up: every SB is in exactly one segment */
     unsigned total = 0;
-    for (unsigned i = 0; i < MAXH * (MAXH + MAXW); i++) if (i < T) total += vc[i];
+    for (unsigned i = 0; i < MAXSR * (MAXSR + MAXSC); i++) if (i < T) total += vc[i];
     V_ASSERT(total == W * H, "every superblock is counted in exactly one segment");
     V_NONDET(unsigned, row);
     V_ASSUME(row < R);
@@ -84,7 +90,24 @@ void h_init(void) {
     if (row > 0 && seg - B >= rows[row - 1].starting_seg_index && seg - B <= rows[row - 1].ending_seg_index && vc[seg - B] > 0) exp++;
     V_ASSERT(dm[seg] == exp, "dependency counter == number of non-empty predecessor segments (left, upper band)");
     V_ASSERT(seg != rows[0].starting_seg_index || row != 0 || dm[seg] == 0, "the first segment of the picture has no predecessor");
+    /* necessary for "always completes": only row 0's first segment is started unconditionally (MDC input task); any
+     * other segment is started by the decrement that brings its counter to 0, so it needs at least one predecessor */
+    V_ASSERT((row == 0 && seg == rows[0].starting_seg_index) || dm[seg] > 0, "every segment except the picture's first has a predecessor that will start it (else the picture never completes)");
+}
+void h_init(void) {
+    V_NONDET(unsigned, W); V_NONDET(unsigned, H); V_NONDET(unsigned, sc); V_NONDET(unsigned, sr);
+    V_ASSUME(W >= 1 && W <= MAXW && H >= 1 && H <= MAXH && sc >= 1 && sc <= MAXSC && sr >= 1 && sr <= MAXSR);
+    check_init(W, H, sc, sr);
     V_CANARY("init reached");
+}
+/* enumerated family: every geometry of the stated box with CONSTANT loop bounds (symbolic execution folds the table
+ * construction; only the witness row / segment stay symbolic) — bounded, far larger box than the symbolic unit */
+void h_init_enum(void) {
+    for (unsigned W = WLO; W <= WHI; W++)
+        for (unsigned H = 1; H <= MAXH; H++)
+            for (unsigned sc = 1; sc <= MAXSC; sc++)
+                for (unsigned sr = 1; sr <= MAXSR; sr++) check_init(W, H, sc, sr);
+    V_CANARY("enumeration completed");
 }
 #endif
 
